@@ -141,6 +141,7 @@ def match_sets(pred, truth, tol):
 
 
 def execute(case):
+    case = {k: v for k, v in case.items() if k != "after"}
     n, edges, cfg = case["n"], [tuple(e) for e in case["edges"]], case["cfg"]
     tmp = tempfile.mkdtemp(prefix="verif_c03_")
     try:
@@ -251,8 +252,15 @@ def work(part, shard):
     from loguru import logger
 
     logger.remove()
+    prev_of_group = {}
     for case in shard:
-        ck = core.digest(case)
+        # listings of the same edge set run consecutively in one process (state cached per edge *set* would show here);
+        # a violating case remembers the previous listing of its group so that the replay can rebuild the history
+        gk = (case["n"], frozenset(tuple(e) for e in case["edges"]))
+        if gk in prev_of_group:
+            case = dict(case, after=prev_of_group[gk])
+        prev_of_group[gk] = {k: v for k, v in case.items() if k != "after"}
+        ck = core.digest({k: v for k, v in case.items() if k != "after"})
         try:
             errs, nframes, info = execute(case)
         except Exception as e:
@@ -278,8 +286,14 @@ def run(ctx):
     core.setup_torch()
     cs = cases(ctx.tier, ctx.seed)
     ctx.bounds = {"runs": len(cs), "skeleton_listings": len(skeletons(ctx.tier, ctx.seed))}
-    cs = core.rotate(cs, ctx.seed)
-    core.pmap(ctx, work, core.shard_list(cs, 96))
+    # shards keep all listings / configurations of one edge set together and in order
+    groups = {}
+    for c in cs:
+        groups.setdefault((c["n"], frozenset(tuple(e) for e in c["edges"])), []).append(c)
+    glist = core.rotate(list(groups.values()), ctx.seed)
+    nsh = 96
+    shards = [[c for g in glist[i::nsh] for c in g] for i in range(nsh)]
+    core.pmap(ctx, work, [s_ for s_ in shards if s_])
 
 
 def replay(case):
@@ -289,6 +303,9 @@ def replay(case):
     logger.remove()
     case = dict(case)
     f = case.pop("frame", None)
+    after = case.pop("after", None)
+    if after is not None:
+        execute({k: v for k, v in after.items() if k != "frame"})  # rebuild the one-step history
     errs, nframes, info = execute(case)
     if f is not None:
         errs = [e for e in errs if e[0] == f] or errs
